@@ -16,4 +16,17 @@ MCObj == [ a    |-> V("A", <<"A">>, {"x", "y"}, "variant"),
            at   |-> V("AT", <<"A", "T">>, {"x"}, "variant"),         \* dashed top-level UID, childless
            abx  |-> V("B", <<"AB">>, {"x"}, "addon"),                \* misaligned only by a missing dash
            abt  |-> V("BT", <<"A", "B", "T">>, {"x"}, "addon") ]     \* misaligned only by an extra dash        \* dashed top-level UID, childless
+\* second pool (thorough tier): two trees sharing child ids, three arches, all four types, a deeper chain
+MCObj2 == [ p    |-> V("A", <<"A">>, {"x", "y", "z"}, "variant"),
+            q    |-> V("B", <<"B">>, {"x"}, "layered-product"),
+            po   |-> V("o", <<"A", "o">>, {"x", "y"}, "optional"),
+            qo   |-> V("o", <<"B", "o">>, {"x"}, "optional"),          \* same id under another parent
+            poh  |-> V("h", <<"A", "o", "h">>, {"y"}, "addon"),
+            poh2 |-> V("h", <<"A", "o", "h">>, {"x", "y"}, "addon"),   \* competes with poh
+            pohz |-> V("h", <<"A", "o", "h">>, {"z"}, "addon"),        \* z is in A but not in A-o
+            ph   |-> V("h", <<"A", "h">>, {"z"}, "layered-product"),
+            qh   |-> V("h", <<"A", "h">>, {"x"}, "addon"),             \* aligned under A, not under B
+            pp   |-> V("A", <<"A", "A">>, {"x", "y", "z"}, "variant"),
+            ppo  |-> V("o", <<"A", "A", "o">>, {"z"}, "optional"),
+            e    |-> V("C", <<"C">>, {}, "variant") ]                  \* no arches at all
 =============================================================================
